@@ -254,15 +254,27 @@ pub fn run_case(case: &str, wasm0: &[u8], version: u16, span: usize, variant: Va
     };
     m.customs.add(Spy(seen.clone()));
     let ni = a.n_imported(Space::Func) as usize;
-    let mut inserted: std::collections::HashMap<usize, usize> = Default::default();
+    // input local-function ordinal -> (position among the surviving operators, operators inserted
+    // there): at the start of the entry sequence, behind its first instruction when that is a plain
+    // one, or at its end (an inserted instruction then has parsed neighbours with line rows)
+    let mut inserted: std::collections::HashMap<usize, (usize, usize)> = Default::default();
     if variant == Variant::Inserted {
         let ids: Vec<_> = m.funcs.iter_local().map(|(id, _)| id).collect();
         for (k, id) in ids.iter().enumerate() {
             if k % 2 == 0 {
+                let ord = id.index() - ni;
+                let survivors = a.code.get(ord).map(|c| code::elide(&c.ops).len()).unwrap_or(1);
                 let f = m.funcs.get_mut(*id).kind.unwrap_local_mut();
                 let entry = f.entry_block();
-                f.builder_mut().instr_seq(entry).drop_at(0).const_at(0, walrus::ir::Value::I32(7));
-                inserted.insert(id.index() - ni, 2);
+                let len = f.block(entry).instrs.len();
+                let first_is_plain = f.block(entry).instrs.first().map(|(i, _)| !matches!(i, walrus::ir::Instr::Block(_) | walrus::ir::Instr::Loop(_) | walrus::ir::Instr::IfElse(_))).unwrap_or(false);
+                let (pos, flat) = match (k / 2) % 3 {
+                    1 if first_is_plain => (1, 1),
+                    2 => (len, survivors.saturating_sub(1)),
+                    _ => (0, 0),
+                };
+                f.builder_mut().instr_seq(entry).drop_at(pos).const_at(pos, walrus::ir::Value::I32(7));
+                inserted.insert(ord, (flat, 2));
             }
         }
     }
@@ -305,7 +317,7 @@ pub fn run_case(case: &str, wasm0: &[u8], version: u16, span: usize, variant: Va
         let Some(&j) = out_of_in.get(&k) else { continue };
         // align the elided input stream with the output stream
         let e = code::elide(&body.ops);
-        let shift = inserted.get(&k).copied().unwrap_or(0);
+        let (at, shift) = inserted.get(&k).copied().unwrap_or((0, 0));
         let ob = &b.code[j];
         if e.len() + shift != ob.ops.len() {
             continue;
@@ -319,7 +331,7 @@ pub fn run_case(case: &str, wasm0: &[u8], version: u16, span: usize, variant: Va
             if let Some(&ei) = idx_of_off.get(&op.offset) {
                 // the elided stream keeps the operator itself (same name) or, for the `end` of an
                 // `if` without `else`, its stand-in `else`
-                out_addr.insert((k, oi), (ob.ops[ei + shift].offset - out_content) as u64);
+                out_addr.insert((k, oi), (ob.ops[if ei < at { ei } else { ei + shift }].offset - out_content) as u64);
             }
         }
     }
@@ -450,7 +462,7 @@ pub fn run_case(case: &str, wasm0: &[u8], version: u16, span: usize, variant: Va
                     let exact = (*low, *high) == (wl, wh);
                     // an edited function: the range must lie within the function's entry and span
                     // every instruction that stems from the input (first original operator .. body end)
-                    let first_orig = (ob.ops[inserted.get(&k).copied().unwrap_or(0)].offset - out_content) as u64;
+                    let first_orig = (ob.ops[match inserted.get(&k) { Some((0, n)) => *n, _ => 0 }].offset - out_content) as u64;
                     let entry_lo = (ob.entry_range.0 - out_content) as u64;
                     let covers = *low != 0xFFFF_FFFF && *low >= entry_lo && *low <= first_orig && low.wrapping_add(*high) == wl + wh;
                     let ok = if inserted.contains_key(&k) { covers } else { exact };
